@@ -132,14 +132,47 @@ def shuffle_cases(start_id, depth):
     t, u = TAGS[0], TAGS[1]
     add = lambda d, ann=None: dict(op="add", d=mk(d, ann), children=None, copy=False)
     rm = lambda d, ann=None: dict(op="rm", d=mk(d, ann), children=None, copy=False)
+    resp = lambda d, s_: dict(op="add", d=mk(d, {SUBJ: s_}, mt=MT_IDX), children=None, copy=False)
     alpha = [rm(A, {REFNAME: t}), rm(A, {REFNAME: u}), rm(X), rm(A), add(A, {REFNAME: t}), add(A, {REFNAME: u}), add(A), add(X), rm("", {REFNAME: t})]
     prefixes = [[add(X), add(A, {REFNAME: t}), add(A, {REFNAME: u})], [add(A, {REFNAME: t}), add(X), add(A, {REFNAME: u})],
                 [add(A, {REFNAME: t}), add(A, {REFNAME: u}), add(X)]]
+    if depth >= 3:
+        # the same with a referrers response in place of one of the tags (the digest of a response listed as response, under a
+        # tag and bare)
+        S = DIGS[2]
+        alpha2 = [rm(A, {REFNAME: t}), rm(X), rm(A), add(A, {REFNAME: t}), resp(A, S), add(A), add(X), rm("", {SUBJ: S})]
+        for pre in ([add(X), resp(A, S), add(A, {REFNAME: t})], [add(X), add(A, {REFNAME: t}), resp(A, S)], [resp(A, S), add(X), add(A, {REFNAME: t})]):
+            for seq in itertools.product(alpha2, repeat=3):
+                yield dict(id=start_id, ops=[dict(o) for o in pre] + [dict(o) for o in seq], queries=[X, A, t], annq=[[SUBJ, ""], [SUBJ, S], [REFNAME, t]], universe='shared')
+                start_id += 1
     cid = start_id
     for pre in prefixes:
         for seq in itertools.product(alpha, repeat=depth):
             yield dict(id=cid, ops=[dict(o) for o in pre] + [dict(o) for o in seq], queries=[X, A, t, u], annq=[[SUBJ, ""], [REFNAME, t]], universe='shared')
             cid += 1
+
+
+def prefix_cases(rng, start_id, n):
+    """annotation values one of which is a proper prefix of the other (tags v1 / v1.2, subjects that share their first
+    characters): a lookup by annotation finds the entry with exactly that value"""
+    tags = ["v1", "v1.2", "v1.2.3", "v"]
+    subs = [DIGS[0], DIGS[0][:40], DIGS[1]]
+    out = []
+    for i in range(n):
+        ops = []
+        for _ in range(rng.randrange(2, 7)):
+            r = rng.random()
+            d = rng.choice(DIGS[:4])
+            if r < 0.5:
+                ops.append(dict(op="add", d=mk(d, {REFNAME: rng.choice(tags)}), children=None, copy=False))
+            elif r < 0.7:
+                ops.append(dict(op="add", d=mk(d, {SUBJ: rng.choice(subs)}, mt=MT_IDX), children=None, copy=False))
+            elif r < 0.85:
+                ops.append(dict(op="rm", d=mk("", {REFNAME: rng.choice(tags)}), children=None, copy=False))
+            else:
+                ops.append(dict(op="rm", d=mk(d, {REFNAME: rng.choice(tags)}), children=None, copy=False))
+        out.append(dict(id=start_id + i, ops=ops, queries=DIGS[:2] + tags, annq=[[REFNAME, t_] for t_ in tags] + [[SUBJ, s_] for s_ in subs] + [[SUBJ, ""]], universe='shared'))
+    return out
 
 
 # ---- direct oracle on the implementation's states ---------------------------------------
@@ -210,6 +243,15 @@ def oracle(ctx, case, out):
                 if (got["dig"] if got else None) != want:
                     ctx.violation("lookup of tag %s gives %s, last insertion was %s"
                                   % (q, got["dig"] if got else None, want), hist, "C18:tag-lookup")
+        # I2' a lookup by annotation finds an entry whose annotation has exactly that value (any value when none is asked for),
+        #     and finds one whenever the top level has one
+        for qi, (key_, val_) in enumerate(case["annq"]):
+            got = st["getann"][qi] if qi < len(st.get("getann") or []) else None
+            have = [d for d in top if (d["ann"] or {}).get(key_) is not None and (val_ == "" or (d["ann"] or {}).get(key_) == val_)]
+            if got is not None and val_ != "" and (got["ann"] or {}).get(key_) != val_:
+                ctx.violation("lookup by annotation %s = %r gives an entry whose value is %r" % (key_.rsplit(".", 1)[-1], val_, (got["ann"] or {}).get(key_)), hist, "C18:annotation-lookup")
+            elif (got is None) != (not have):
+                ctx.violation("lookup by annotation %s = %r %s although the top level %s" % (key_.rsplit(".", 1)[-1], val_, "fails" if got is None else "succeeds", "has such an entry" if have else "has none"), hist, "C18:annotation-lookup")
         # I3 a subject has at most one referrers response
         subs = [subj_of(d) for d in top if subj_of(d)]
         if len(subs) != len(set(subs)):
@@ -397,6 +439,7 @@ def run(ctx):
             big = k % 3 == 0
             cases.append(gen_case(ctx.rng, len(cases), 20 if big else 10, 5 if big else 3, 3 if big else 2,
                                   universe=("api", "shared", "beyond")[k % 3 if k % 9 else 0]))
+        cases += prefix_cases(ctx.rng, len(cases), 300 if ctx.tier == "quick" else 6000)
         if ctx.tier == "thorough":
             cases += list(enum_cases(len(cases), 3))
             cases += list(shuffle_cases(len(cases), 4))
